@@ -16,6 +16,7 @@ import (
 	"github.com/insomniacslk/dhcp/dhcpv4/nclient4"
 	"github.com/insomniacslk/dhcp/dhcpv6"
 	"github.com/insomniacslk/dhcp/dhcpv6/nclient6"
+	"verif/harness/mon"
 )
 
 const (
@@ -71,6 +72,9 @@ type Resp struct {
 	// Again reads the same message object once more (the caller keeps what a call returned; later traffic on the
 	// client must not change it).  nil for a nil message.
 	Again func() Resp
+	// Own: the caller does what it likes with the message it was handed: mode 1 gives it another transaction id,
+	// mode 2 overwrites everything in it.  nil for a nil message.
+	Own func(mode int, xid uint32)
 }
 
 type MatchFn func(Resp) bool
@@ -260,6 +264,12 @@ func resp4(p *dhcpv4.DHCPv4) Resp {
 		r.Damaged = !bytes.Equal(p.Options.Get(dhcpv4.GenericOptionCode(tailOpt4)), Tail(r.Nonce))
 	}
 	r.Again = func() Resp { return resp4(p) }
+	r.Own = func(mode int, xid uint32) {
+		if mode == 2 {
+			mon.Scribble(p)
+		}
+		binary.BigEndian.PutUint32(p.TransactionID[:], xid)
+	}
 	return r
 }
 
@@ -389,6 +399,12 @@ func resp6(m *dhcpv6.Message) Resp {
 		}
 	}
 	r.Again = func() Resp { return resp6(m) }
+	r.Own = func(mode int, xid uint32) {
+		if mode == 2 {
+			mon.Scribble(m)
+		}
+		m.TransactionID = dhcpv6.TransactionID{byte(xid >> 16), byte(xid >> 8), byte(xid)}
+	}
 	return r
 }
 
